@@ -209,6 +209,26 @@ def gen_files(rng, tier):
             if kept:
                 c["haps"] = kept
                 c["absent"] = [h["id"] for h in kept if any(v[0].startswith("absent") for v in h["vars"])]
+        c["region"] = None
+        if rng.random() < 0.25:
+            # --region: the .hap file is then sorted and indexed (haptools index) and only haplotypes lying entirely
+            # inside the region are transformed; every haplotype is kept on one chromosome for these cases
+            chrom_of = {v["id"]: v["chrom"] for v in c["variants"]}
+            pos_of = {v["id"]: v["pos"] for v in c["variants"]}
+            kept = []
+            for h in c["haps"]:
+                real = [v for v in h["vars"] if v[0] in chrom_of]
+                if not real:
+                    continue
+                ch = chrom_of[real[0][0]]
+                vs = [v for v in h["vars"] if v[0] not in chrom_of or chrom_of[v[0]] == ch]
+                ps = [pos_of[v[0]] for v in vs if v[0] in pos_of]
+                kept.append({**h, "chrom": ch, "vars": vs, "start": min(ps), "end": max(ps) + 1})
+            if kept:
+                c["haps"] = kept
+                c["absent"] = [h["id"] for h in kept if any(v[0].startswith("absent") for v in h["vars"])]
+                lo = rng.choice([1, 10, 15, 20])
+                c["region"] = {"chrom": rng.choice(sorted({h["chrom"] for h in kept})), "lo": lo, "hi": rng.choice([x for x in (20, 21, 31, 40) if x >= lo])}
         c["ids"] = rng.choice([None, None, [h["id"] for h in rng.sample(c["haps"], rng.randint(1, len(c["haps"])))]])
         c["sample_subset"] = rng.choice([None, None, rng.sample(c["samples"], rng.randint(1, len(c["samples"])))])
         c["bp_order"] = rng.sample(range(len(c["samples"])), len(c["samples"]))
@@ -257,8 +277,21 @@ def impl_files(case):
             for vid, a in h["vars"]:
                 f.write(f"V\t{h['id']}\t1\t2\t{vid}\t{a}\n")
     out = d / ("out" + case["fmt_out"])
+    hapfile, region = d / "h.hap", None
+    if case.get("region"):
+        from haptools.index import index_haps
+
+        # sorted by the harness (H/R lines by contig and coordinates, then V lines by haplotype) and indexed with
+        # --no-sort, which keeps the extra fields (the ancestry column) and the header
+        ls = open(d / "h.hap").read().splitlines()
+        head = [l for l in ls if l.startswith("#")]
+        hr = sorted([l.split("\t") for l in ls if l[:2] in ("H\t", "R\t")], key=lambda f: (f[1], int(f[2]), int(f[3]), f[4]))
+        vv = sorted([l.split("\t") for l in ls if l.startswith("V\t")], key=lambda f: (f[1], int(f[2]), int(f[3])))
+        open(d / "hs.hap", "w").write("\n".join(head + ["\t".join(f) for f in hr + vv]) + "\n")
+        index_haps(d / "hs.hap", sort=False, output=d / "hs.hap.gz", log=SD.silent_log())
+        hapfile, region = d / "hs.hap.gz", f"{case['region']['chrom']}:{case['region']['lo']}-{case['region']['hi']}"
     with C.capture_logs() as cap:
-        r = transform_haps(gfile, d / "h.hap", region=None, samples=None if case["sample_subset"] is None else set(case["sample_subset"]), haplotype_ids=None if case["ids"] is None else set(case["ids"]), ancestry=bool(case["anc_source"]), output=out, log=cap.logger)
+        r = transform_haps(gfile, hapfile, region=region, samples=None if case["sample_subset"] is None else set(case["sample_subset"]), haplotype_ids=None if case["ids"] is None else set(case["ids"]), ancestry=bool(case["anc_source"]), output=out, log=cap.logger)
     warned = any("could not be found in the genotypes" in m for _, m in cap.records)
     # read the written file back with an independent reader
     if case["fmt_out"] == ".pgen":
@@ -289,6 +322,10 @@ def impl_files(case):
 def oracle_files(case, obs):
     kept_samples = [s for s in case["samples"] if case["sample_subset"] is None or s in case["sample_subset"]]
     want_h = [h for h in case["haps"] if case["ids"] is None or h["id"] in case["ids"]]
+    if case.get("region"):
+        rg = case["region"]
+        # the indexed file is sorted by (chrom, start, end, ID); only haplotypes entirely inside the region remain
+        want_h = sorted([h for h in want_h if h["chrom"] == rg["chrom"] and rg["lo"] <= h["start"] and h["end"] <= rg["hi"]], key=lambda h: (h["chrom"], h["start"], h["end"], h["id"]))
     ok_h = [h for h in want_h if h["id"] not in case["absent"]]
     if "error" in obs:
         if not ok_h and obs["error"] in ("value_error", "index_error"):
@@ -312,7 +349,7 @@ def oracle_files(case, obs):
 
 
 def describe_files(case, obs):
-    return [f"anc={case['anc_source']}", f"in={case['fmt_in']}", f"out={case['fmt_out']}", "absent-variants" if case["absent"] else "all-present", "id-subset" if case["ids"] else "all-haps", "sample-subset" if case["sample_subset"] else "all-samples"]
+    return [f"anc={case['anc_source']}", f"in={case['fmt_in']}", f"out={case['fmt_out']}", "absent-variants" if case["absent"] else "all-present", "id-subset" if case["ids"] else "all-haps", "sample-subset" if case["sample_subset"] else "all-samples", "region" if case.get("region") else "no-region"]
 
 
 CHECK = Check(
